@@ -291,7 +291,8 @@ TFeed(c) == Feed(c) /\ Consume(LexStep(mode, cur, c).emit)
 TFinish  == Finish /\ Consume(AtEnd(mode, cur))
 
 \* the few shapes the vacuity witnesses need (a subset of Shapes), INIT of the witness configuration
-WitnessShapes == Deep \cup {C("set", <<>>), C("list", <<Kid1>>), C("list", <<C("dict", <<Kid1, Kid2>>)>>)}
+WitnessShapes == {C("MyList", <<C("tuple", <<C("list", <<Kid2>>)>>)>>),
+                  C("set", <<>>), C("list", <<Kid1>>), C("list", <<C("dict", <<Kid1, Kid2>>)>>)}
 TInitW == /\ shape \in WitnessShapes
           /\ want = Expect(shape)
           /\ n = RefEncode(shape) /\ form = "raw" /\ bare = FALSE
@@ -309,7 +310,7 @@ RefAccepted == done => Accepted
 StackBounded == Len(stack) <= 3
 
 \* vacuity witnesses (must be VIOLATED)
-Witness_Depth3     == ~(Len(stack) = 3 /\ shape.tag = "MyList" /\ stack[3].st = "open")
+Witness_Depth3     == ~(Len(stack) = 3 /\ shape.tag = "MyList" /\ stack[3].st = "term")
 Witness_MapInList  == ~(done /\ Accepted /\ out[1].k = "list" /\ \E i \in 1..Len(out[1].v) : out[1].v[i].k = "map")
 Witness_EmptyBrace == ~(done /\ Accepted /\ out[1].k = "empty_brace")
 Witness_QuoteInStr == ~(done /\ Accepted /\ out[1].k = "list" /\ Len(out[1].v) = 1 /\ out[1].v[1].k = "str"
